@@ -71,11 +71,53 @@ pub struct RunOut {
     pub events: Vec<Value>,
     pub wall_ms: f64,
     pub hung: bool,
+    pub raw_count: usize,
+    pub raw: Vec<String>,
 }
 
 /// Runs factor(n, alg, prefs) in its own thread with the event sink on.  A panic is an outcome; so
 /// is a hang, detected as *no progress event for `idle_s` seconds* (never on wall time alone).
-pub fn run_factor(n: Uint, alg: Algo, mk_prefs: impl FnOnce() -> Preferences + Send + 'static, idle_s: f64) -> RunOut {
+/// op of a raw event line without parsing it
+pub fn op_of(s: &str) -> &str {
+    match s.find("\"op\":\"") {
+        Some(i) => {
+            let r = &s[i + 6..];
+            &r[..r.find('"').unwrap_or(0)]
+        }
+        None => "",
+    }
+}
+
+fn field_u(s: &str, key: &str) -> i64 {
+    let pat = format!("\"{}\":", key);
+    match s.find(&pat) {
+        Some(i) => s[i + pat.len()..].chars().take_while(|c| c.is_ascii_digit()).collect::<String>().parse().unwrap_or(0),
+        None => 0,
+    }
+}
+
+/// Parses the raw event lines a driver cares about (`keep(op)`); the bulky rel_add events of the store
+/// (whole relations) are reduced to tid / ph / cycles without a full JSON parse.
+pub fn parse_events(raw: &[String], keep: &dyn Fn(&str) -> bool) -> Vec<Value> {
+    let mut out = Vec::with_capacity(raw.len().min(1 << 20));
+    for s in raw {
+        let op = op_of(s);
+        if !keep(op) {
+            continue;
+        }
+        if op == "rel_add" {
+            let exit = s.contains("\"ph\":\"exit\"");
+            out.push(json!({"tid": field_u(s, "tid"), "op": "rel_add", "ph": if exit { "exit" } else { "enter" },
+                            "cycles": if exit { field_u(s, "cycles") } else { 0 }}));
+        } else if let Ok(v) = serde_json::from_str::<Value>(s) {
+            out.push(v);
+        }
+    }
+    out
+}
+
+pub fn run_factor(n: Uint, alg: Algo, mk_prefs: impl FnOnce() -> Preferences + Send + 'static, idle_s: f64,
+                  keep: &dyn Fn(&str) -> bool) -> RunOut {
     PANICS.lock().unwrap_or_else(|e| e.into_inner()).clear();
     let (tx, rx) = mpsc::channel();
     yamaquasi::verif::start();
@@ -126,8 +168,9 @@ pub fn run_factor(n: Uint, alg: Algo, mk_prefs: impl FnOnce() -> Preferences + S
     };
     let raw = yamaquasi::verif::stop();
     yamaquasi::verif::set_sched(None);
-    let events = raw.iter().filter_map(|s| serde_json::from_str::<Value>(s).ok()).collect();
-    RunOut { outcome, events, wall_ms, hung }
+    let raw_count = raw.len();
+    let events = parse_events(&raw, keep);
+    RunOut { outcome, events, wall_ms, hung, raw_count, raw }
 }
 
 pub fn outcome_fields(o: &Outcome) -> Value {
@@ -228,62 +271,119 @@ pub fn compact(e: &Value, out: &mut Vec<Value>) {
     }
 }
 
-/// Streaming compaction of a whole run.  A pool worker that finds the sieve finished goes through
-/// "task, (pre_poll, fin_done,) task_skip" once per remaining work item (MPQS: 100 000 blocks): after the
-/// first two such skip cycles of a thread the following ones are only counted (entry 29: [29, tid, count]).
-/// The events of a cycle are buffered until it is known whether it skips or starts a unit, so a buffered
-/// cycle may appear later than it happened relative to other threads (never reordered within its thread).
-pub fn compact_all(events: &[Value]) -> Vec<Value> {
+/// tid of a raw event line ({"tid":N,...) without parsing it
+fn tid_of(s: &str) -> i64 {
+    s.get(7..).map(|r| r.bytes().take_while(|b| b.is_ascii_digit()).fold(0i64, |a, b| a * 10 + (b - b'0') as i64)).unwrap_or(0)
+}
+
+fn parse_one(s: &str) -> Option<Value> {
+    let op = op_of(s);
+    if op.starts_with("f_") || (op.starts_with("fi_") && op != "fi_alg") {
+        return None;
+    }
+    if op == "rel_add" {
+        let exit = s.contains("\"ph\":\"exit\"");
+        return Some(json!({"tid": tid_of(s), "op": "rel_add", "ph": if exit { "exit" } else { "enter" },
+                           "cycles": if exit { field_u(s, "cycles") } else { 0 }}));
+    }
+    serde_json::from_str::<Value>(s).ok()
+}
+
+/// Streaming compaction of a whole run (raw event lines, parsed only when kept).
+///
+/// (1) A pool worker that finds the sieve finished goes through "task, (pre_poll, fin_done,) task_skip" once
+///     per remaining work item (MPQS: 100 000 blocks): after the first two such skip cycles of a thread the
+///     following ones are only counted (entry 29: [29, tid, count]).  The events of a cycle are buffered until
+///     it is known whether it skips or starts a unit, so a buffered cycle may appear later than it happened
+///     relative to other threads (never reordered within its thread).
+/// (2) An insertion "w_req, rel_add enter, rel_add exit, w_rel" of one thread with no event of any other
+///     thread logged in between (the uncontended case) becomes one entry 30: [30, tid, cycles, count]
+///     (consecutive ones of the same thread are merged, count = how many).  Contended insertions stay as the
+///     four original entries, so overlaps remain visible.
+pub fn compact_all(raw: &[String]) -> Vec<Value> {
     let mut out: Vec<Value> = vec![];
-    let mut buf: HashMap<i64, Vec<Value>> = HashMap::new(); // tid -> buffered cycle
+    let mut buf: HashMap<i64, Vec<&str>> = HashMap::new(); // tid -> buffered cycle (raw lines)
     let mut cycles: HashMap<i64, usize> = HashMap::new(); // tid -> consecutive skip cycles so far
     let mut dropped: HashMap<i64, i64> = HashMap::new();
-    for e in events {
-        let tid = gi(e, "tid");
-        let op = e["op"].as_str().unwrap_or("");
+    fn flush(lines: Vec<&str>, out: &mut Vec<Value>) {
+        for l in lines {
+            if let Some(v) = parse_one(l) {
+                compact(&v, out);
+            }
+        }
+    }
+    for line in raw {
+        let op = op_of(line);
+        let tid = tid_of(line);
         match op {
             "task" => {
                 if let Some(b) = buf.remove(&tid) {
-                    out.extend(b); // unfinished cycle (should not happen)
+                    flush(b, &mut out); // unfinished cycle (should not happen)
                 }
-                let mut v = vec![];
-                compact(e, &mut v);
-                buf.insert(tid, v);
+                buf.insert(tid, vec![line.as_str()]);
             }
             "task_skip" => {
                 let mut b = buf.remove(&tid).unwrap_or_default();
-                compact(e, &mut b);
+                b.push(line.as_str());
                 let c = cycles.entry(tid).or_insert(0);
                 *c += 1;
                 if *c <= 2 {
-                    out.extend(b);
+                    flush(b, &mut out);
                 } else {
                     *dropped.entry(tid).or_insert(0) += 1;
                 }
             }
             "pre_poll" | "fin_done" | "poll" | "r_len" if buf.contains_key(&tid) => {
-                compact(e, buf.get_mut(&tid).unwrap());
+                buf.get_mut(&tid).unwrap().push(line.as_str());
             }
             _ => {
                 if let Some(b) = buf.remove(&tid) {
-                    out.extend(b);
+                    flush(b, &mut out);
                     cycles.insert(tid, 0);
                 }
-                compact(e, &mut out);
+                if let Some(v) = parse_one(line) {
+                    compact(&v, &mut out);
+                }
             }
         }
     }
     let mut rest: Vec<_> = buf.into_iter().collect();
     rest.sort_by_key(|x| x.0);
     for (_, b) in rest {
-        out.extend(b);
+        flush(b, &mut out);
+    }
+    // (2) fold uncontended insertions
+    let mut folded: Vec<Value> = Vec::with_capacity(out.len() / 2);
+    let code = |v: &Value| v[0].as_i64().unwrap_or(0);
+    let mut i = 0;
+    while i < out.len() {
+        if i + 3 < out.len() && code(&out[i]) == 16 {
+            let t = out[i][1].as_i64();
+            let (a, b, c) = (&out[i + 1], &out[i + 2], &out[i + 3]);
+            if code(a) == 18 && a[2] == 0 && a[1].as_i64() == t && code(b) == 18 && b[2] == 1 && b[1].as_i64() == t
+                && code(c) == 17 && c[1].as_i64() == t
+            {
+                let cyc = b[3].as_i64().unwrap_or(0);
+                match folded.last_mut() {
+                    Some(last) if code(last) == 30 && last[1].as_i64() == t => {
+                        let n = last[3].as_i64().unwrap_or(0) + 1;
+                        *last = json!([30, t, cyc, n, 0]);
+                    }
+                    _ => folded.push(json!([30, t, cyc, 1, 0])),
+                }
+                i += 4;
+                continue;
+            }
+        }
+        folded.push(out[i].clone());
+        i += 1;
     }
     let mut d: Vec<_> = dropped.into_iter().collect();
     d.sort();
     for (tid, n) in d {
-        out.push(json!([29, tid, n.min(2_000_000_000), 0, 0]));
+        folded.push(json!([29, tid, n.min(2_000_000_000), 0, 0]));
     }
-    out
+    folded
 }
 
 /// An input: product of certified primes.
@@ -532,6 +632,9 @@ pub fn run(args: &Args) -> i32 {
         Variant { key: "dbl", use_double: Some(true), large_factor: Some(40), fb_size: None },
         Variant { key: "nolp", use_double: Some(false), large_factor: Some(1), fb_size: None },
         Variant { key: "bigfb", use_double: Some(false), large_factor: None, fb_size: Some(400) },
+        // oversized factor base on a 90-100 bit input: gap() reaches 0 with len <= fb, the precondition of the
+        // stale-gap panic of SieveProto (MC_SieveProto_hazard.cfg); run with 2-3 threads under the ReadGap gate
+        Variant { key: "fb1200", use_double: Some(false), large_factor: None, fb_size: Some(1200) },
     ];
     // --fbs a,b,c: additional oversized factor bases (attempts to reach gap = 0 with len <= fb, the
     // precondition of the stale-gap panic of the model)
@@ -561,6 +664,7 @@ pub fn run(args: &Args) -> i32 {
         let mut prng = StdRng::seed_from_u64(plan_seed);
         out.ev(input_event(&inp));
         let mut runno = 0;
+        let mut tcount = 0usize;
         for sel in selectors {
             if let Some(ss) = &sels_arg {
                 if !ss.iter().any(|x| x == sel) {
@@ -571,7 +675,7 @@ pub fn run(args: &Args) -> i32 {
             // sieve preference variants only matter for the sieves; Qs is slow above 80 bits
             let vars: Vec<&Variant> = match sel {
                 "Siqs" => variants.iter().collect(),
-                "Mpqs" => variants[..3].iter().collect(),
+                "Mpqs" => variants[..2].iter().collect(),
                 "Qs" => variants[..2].iter().collect(),
                 _ => variants[..1].iter().collect(),
             };
@@ -583,12 +687,23 @@ pub fn run(args: &Args) -> i32 {
                     continue;
                 }
                 let probe = v.key.starts_with("fb");
+                if v.key == "fb1200" && !(88..=100).contains(&inp.n.bits()) {
+                    continue;
+                }
                 // baseline: no pool at all
                 let mut todo: Vec<(Option<usize>, Pert)> = vec![(None, Pert { kind: "none".into(), seed: 0 })];
-                let np = if sel == "Ecm" || sel == "Auto" { perts_per * 5 / 2 } else { perts_per };
-                for _ in 0..np {
-                    let t = threads[prng.gen_range(0..threads.len())];
-                    let t = if probe { 2 + (t % 2) } else { t };
+                let np = match sel {
+                    "Ecm" | "Auto" => perts_per * 5 / 2,
+                    "Mpqs" => perts_per * 5 / 4,
+                    "Qs" => perts_per * 2,
+                    _ if probe => perts_per.max(10),
+                    _ => perts_per,
+                };
+                for j in 0..np {
+                    // thread counts cycle so that every (selector, threads) cell gets its share of perturbations
+                    tcount += 1;
+                    let t = threads[(ii + tcount + j * 0) % threads.len()];
+                    let t = if probe { if prng.gen_range(0..4) == 0 { 3 } else { 2 } } else { t };
                     let kind = gate_kinds[prng.gen_range(0..gate_kinds.len())];
                     // gates are about the SIQS/MPQS/ECM flags; other selectors get random perturbation
                     let kind = if probe && t > 1 { "gapgate" } else { kind };
@@ -604,8 +719,8 @@ pub fn run(args: &Args) -> i32 {
                         let mut prefs = prefs_of(&vv, t);
                         prefs.should_abort = Some(logging_never_abort(polls));
                         prefs
-                    }, idle_s);
-                    let evs = compact_all(&r.events);
+                    }, idle_s, &|_| false);
+                    let evs = compact_all(&r.raw);
                     let mut e = json!({
                         "op": "run", "case": inp.id, "run": format!("{}/{}/{}/t{}/{}{}#{}", inp.id, sel, v.key,
                             t.map(|x| x as i64).unwrap_or(0), pert.kind, pert.seed, runno),
@@ -613,7 +728,7 @@ pub fn run(args: &Args) -> i32 {
                         "base": t.is_none(), "bkey": format!("{}/{}", sel, v.key),
                         "pert": pert.kind, "pseed": pert.seed, "gate_holds": stats[0].load(Ordering::Relaxed),
                         "gate_released": stats[1].load(Ordering::Relaxed),
-                        "raw_events": r.events.len(), "wall_ms": (r.wall_ms * 10.0).round() / 10.0,
+                        "raw_events": r.raw_count, "wall_ms": (r.wall_ms * 10.0).round() / 10.0,
                         "n": dn(&inp.n), "n_dec": inp.n.to_string(), "evs": evs,
                     });
                     let of = outcome_fields(&r.outcome);
